@@ -184,6 +184,11 @@ func (server *Server) ServeCodec(codec ServerCodec) {
 		pipeline.Schedule(func() { close(dispatched) })
 		<-dispatched
 	}
+	// Release the stream handlers first: they must not stay blocked until
+	// every other handler of the connection has returned.
+	for _, ctx := range streams {
+		ctx.stream.Close()
+	}
 	wg.Wait()
 	server.mutex.Lock()
 	server.deleteCodec(codec)
@@ -191,9 +196,6 @@ func (server *Server) ServeCodec(codec ServerCodec) {
 	codec.Close()
 	if sched != nil {
 		sched.Close()
-	}
-	for _, ctx := range streams {
-		ctx.stream.Close()
 	}
 	readStream.Close()
 	pipeline.Close()
@@ -464,19 +466,6 @@ func (server *Server) listen(sock socket.Socket, address string, New NewServerCo
 		return err
 	}
 	server.logger.Noticef("listening on %s", address)
-	codecs := make(map[ServerCodec]io.Closer)
-	defer func() {
-		server.mutex.Lock()
-		for codec, closer := range codecs {
-			delete(codecs, codec)
-			server.deleteCodec(codec)
-			closer.Close()
-		}
-		server.mutex.Unlock()
-	}()
-	server.mut.Lock()
-	server.listeners = append(server.listeners, lis)
-	server.mut.Unlock()
 	type ServerContext struct {
 		codec      ServerCodec
 		recving    *sync.Mutex
@@ -489,6 +478,44 @@ func (server *Server) listen(sock socket.Socket, address string, New NewServerCo
 		pipe       int32
 		closed     int32
 	}
+	// releaseStreams unblocks the stream handlers of a poll-mode connection
+	// once the frames already read have been dispatched.
+	releaseStreams := func(svrctx *ServerContext) {
+		svrctx.recving.Lock()
+		if !server.directIO {
+			dispatched := make(chan struct{})
+			svrctx.pipeline.Schedule(func() { close(dispatched) })
+			<-dispatched
+		}
+		for _, ctx := range svrctx.streams {
+			ctx.stream.Close()
+		}
+		svrctx.recving.Unlock()
+	}
+	codecs := make(map[ServerCodec]io.Closer)
+	contexts := make(map[ServerCodec]*ServerContext)
+	defer func() {
+		server.mutex.Lock()
+		var open []*ServerContext
+		for codec, closer := range codecs {
+			delete(codecs, codec)
+			server.deleteCodec(codec)
+			closer.Close()
+			if svrctx, ok := contexts[codec]; ok {
+				delete(contexts, codec)
+				open = append(open, svrctx)
+			}
+		}
+		server.mutex.Unlock()
+		for _, svrctx := range open {
+			if atomic.CompareAndSwapInt32(&svrctx.closed, 0, 1) {
+				releaseStreams(svrctx)
+			}
+		}
+	}()
+	server.mut.Lock()
+	server.listeners = append(server.listeners, lis)
+	server.mut.Unlock()
 	if server.poll {
 		return lis.ServeMessages(func(messages socket.Messages) (socket.Context, error) {
 			if set, ok := messages.(socket.BufferedInput); ok {
@@ -505,7 +532,7 @@ func (server *Server) listen(sock socket.Socket, address string, New NewServerCo
 			}
 			var streams = make(map[uint64]*Context)
 			var pipeline = scheduler.New(1, &scheduler.Options{Threshold: 2})
-			return &ServerContext{
+			svrctx := &ServerContext{
 				codec:      codec,
 				recving:    new(sync.Mutex),
 				wg:         new(sync.WaitGroup),
@@ -514,7 +541,11 @@ func (server *Server) listen(sock socket.Socket, address string, New NewServerCo
 				sched:      sched,
 				readStream: scheduler.New(1, &scheduler.Options{Threshold: 2}),
 				streams:    streams,
-			}, nil
+			}
+			server.mutex.Lock()
+			contexts[codec] = svrctx
+			server.mutex.Unlock()
+			return svrctx, nil
 		}, func(context socket.Context) error {
 			svrctx := context.(*ServerContext)
 			ctx := server.ctxPool.Get().(*Context)
@@ -546,9 +577,12 @@ func (server *Server) listen(sock socket.Socket, address string, New NewServerCo
 			}
 			if err == io.EOF || err == io.ErrUnexpectedEOF {
 				if atomic.CompareAndSwapInt32(&svrctx.closed, 0, 1) {
+					// The connection is gone: release its stream handlers.
+					releaseStreams(svrctx)
 					svrctx.wg.Wait()
 					server.mutex.Lock()
 					delete(codecs, svrctx.codec)
+					delete(contexts, svrctx.codec)
 					server.deleteCodec(svrctx.codec)
 					server.mutex.Unlock()
 					svrctx.codec.Close()
